@@ -26,7 +26,7 @@ RULE = ('(callable kind | class shape) x API {configurable, register, external_c
         'pickle; rejection menu x API leaves the registry unchanged; interactive mode scope. non-trivial = every case.')
 ASSUMPTIONS = ['classes are created fresh per case in a synthetic module so that pickling by reference works',
                'builtins with positional-only parameters are checked for call transparency only']
-WITNESSES = ['direct_call_uninjected', 'registry_version_injected', 'vars_unchanged', 'metadata_preserved',
+WITNESSES = ['registered_method_reached_through_original', 'direct_call_uninjected', 'registry_version_injected', 'vars_unchanged', 'metadata_preserved',
              'exact_type_instance', 'pickle_roundtrip', 'scoped_instance_is_original_class', 'rejection_atomic',
              'interactive_reregistration', 'interactive_mode_ends', 'registered_method_subclass_instance',
              'signature_preserved', 'builtin_callable']
@@ -507,6 +507,30 @@ def case_class(shape, api, form, scope, res):
           return
     else:
       res.w('registered_method_subclass_instance')
+      if api == 'configurable':
+        continue   # decorating in place does not rename the methods (they stay addressable as module.method)
+      # the registered method: the original function stays un-injected, the registry's version (reached through the
+      # instance of the configurable class, the selector, or the original function object) is injected
+      msel = selector + '.meth'
+      try:
+        gin.bind_parameter(msel + '.y', 'MINJ')
+        direct = C().meth()
+        via_inst = inst.meth()
+        via_obj = gin.get_configurable(C.meth)(C())
+        via_sel = gin.get_configurable(msel)(C())
+        bnd = gin.get_bindings(C.meth)
+      except Exception as e:  # pylint: disable=broad-except
+        res.violation('registered_method_unreachable', '%r: via %s: registered method of the class could not be bound / '
+                      'reached through the original function object: %r' % (desc, vn, e), desc)
+        return
+      if direct != 'dy':
+        res.violation('direct_call_injected', '%r: direct call of the original method returned %r' % (desc, direct), desc)
+        return
+      if (via_inst, via_obj, via_sel, bnd) != ('MINJ', 'MINJ', 'MINJ', {'y': 'MINJ'}):
+        res.violation('registry_version_not_injected', '%r: registered method via instance/original object/selector gave '
+                      '%r, bindings %r' % (desc, (via_inst, via_obj, via_sel), bnd), desc)
+        return
+      res.w('registered_method_reached_through_original')
   if api == 'configurable' and sig_before is not None:
     if str(inspect.signature(ret)) != sig_before:
       res.violation('signature_lost', '%r: signature %s, original %s' % (desc, inspect.signature(ret), sig_before), desc)
